@@ -15,13 +15,13 @@ NAMES = ["r", "a", "b", "c", "d"]
 LEAF = {"none": None, "scalar": 7, "str": "s<", "arr": ["<"], "undef": {"$undef": 1}}
 
 
-def concretise(vs):
+def concretise(vs, safe=False):
     """Context realising the tuple of lookup outcomes vs along the path r.a.b.c"""
     def build(i):
         # value found at step i (vs[i] is not "missing")
         k = vs[i]
         if k != "map":
-            return LEAF[k]
+            return {"$safe": LEAF[k]} if (safe and k == "str") else LEAF[k]
         m = {"zz": 0}
         if i + 1 < len(vs) and vs[i + 1] != "missing":
             m[NAMES[i + 1]] = build(i + 1)
@@ -79,6 +79,12 @@ def run(tier):
         for bi, body in enumerate((src, "{% block k %}" + src + "{% endblock %}",
                                    "{% component C() %}" + src + "{% endcomponent C %}{{<C/>}}")):
             jumpy.append({"tpls": [["j.html", body]], "cfg": {"probes": True}, "src": body, "entry": "j.html"})
+    # includes whose partial reads names the includer shadows (assignment, loop variable) -- plain and dotted, written and
+    # loaded: the fused and the plain instructions go through the same scopes
+    for part in ("{{ x }}|{{ a.b }}|{% if a.b %}y{% endif %}|{{ x or a.b }}", "{% set v = a.b %}{{ v }}{{ x }}", "{% for q in [1] %}{{ x }}{{ a.b }}{% endfor %}"):
+        for host in ("{% set x = 'L' %}{% set a = {'b': 'LB'} %}{% include 'part.html' %}", "{% for x in ['I', 'J'] %}{% for a in [{'b': 'IB'}] %}{% include 'part.html' %}{% endfor %}{% endfor %}",
+                     "{% include 'part.html' %}{% set_global x = 'G' %}{% include 'part.html' %}", "{% set c %}{% set x = 'C' %}{% include 'part.html' %}{% endset %}{{ c }}{% include 'part.html' %}"):
+            jumpy.append({"tpls": [["part.html", part], ["j.html", host]], "cfg": {"probes": True}, "src": host + " <- " + part, "entry": "j.html"})
     allc = snap + jumpy
     post = vp.run_jobs(corpus.listing_jobs(allc, True), tag="c09-post")
     pairs = {}
@@ -128,8 +134,9 @@ def run(tier):
     # ---- S->I: every tuple, pass on and off, against the unfused reference outcome
     jobs, meta = [], []
     for v in vecs:
+      for safe in ((False, True) if "str" in v["vs"] else (False,)):       # a string leaf also as a string marked safe
         vs = v["vs"]
-        ctx = concretise(vs)
+        ctx = concretise(vs, safe)
         P = path_of(len(vs))
         for opt in (True, False):
             jobs.append({"cfg": {"optimize": opt, "autoescape": [".html"]}, "ctx": ctx, "steps": [
@@ -141,10 +148,10 @@ def run(tier):
                 {"op": "add", "tpls": [["k.txt", "{%% component K(r) %%}[{{ %s }}]{%% endcomponent K %%}" % P], ["k.html", "{%% component H(r) %%}[{{ %s }}]{%% endcomponent H %%}" % P]]},
                 {"op": "render_component", "name": "K", "auto": True, "expect_ae": True},
                 {"op": "render_component", "name": "H", "auto": False, "expect_ae": False}]})
-            meta.append((v, opt))
+            meta.append((v, opt, safe))
     res = vp.traced(jobs, C, "c09-local")
     outs = {}
-    for (v, opt), rr in zip(meta, res):
+    for (v, opt, safe), rr in zip(meta, res):
         vs = v["vs"]
         C.count(3)
         if len(vs) >= 2:
@@ -167,7 +174,7 @@ def run(tier):
                         "loading %s with lookups %s: engine (pass %s) gives %s, unfused reference %s" % (
                             path_of(len(vs)), vs, "on" if opt else "off", got_l, want_l),
                         {"vs": vs, "ctx": concretise(vs), "opt": opt, "expected": exp_l, "got": k})
-        outs.setdefault(json.dumps(vs), {})[opt] = [(x.get("ok"), x.get("out")) for x in rr]
+        outs.setdefault(json.dumps(vs + (["safe"] if safe else [])), {})[opt] = [(x.get("ok"), x.get("out")) for x in rr]
     for key, d in outs.items():
         if True in d and False in d and d[True] != d[False]:
             C.violation({"kind": "onoff", "vs": json.loads(key)}, "pass on/off differ on lookups %s: %s vs %s" % (key, d[True], d[False]),
